@@ -942,8 +942,11 @@ inline void enter(Event& e, const char* entity, int overload, long self) {
 }
 inline void leave(Event& e) { S().trace.push_back(e); }
 inline long tick() { return ++S().counter; }
-inline int ret_int() { return (int)(1000 + tick()); }
-inline size_t ret_size() { return (size_t)(5000000000ULL + tick()); }
+// results cover the type's range: negative ints, sizes above 2^32 and above 2^63 (npos-like sentinels, keys with a
+// character in the top byte)
+inline int ret_int() { long k = tick(); return k % 3 == 0 ? -(int)(1000 + k) : (k % 7 == 0 ? (int)(-2147483647 - 1 + k) : (int)(1000 + k)); }
+inline size_t ret_size() { long k = tick(); return k % 4 == 0 ? (size_t)(0xC800000000000000ULL + (size_t)k)
+                                                 : (k % 9 == 0 ? (size_t)-1 : (size_t)(5000000000ULL + (size_t)k)); }
 inline char ret_char() { return (char)(33 + tick() % 90); }
 inline bool ret_bool() { return tick() % 2 == 0; }
 inline double ret_double() { return 0.25 + (double)tick(); }
